@@ -46,7 +46,7 @@ theorem Open.step {x : H2X} {O D : Bytes} (_hi : Inv x.st O D) (h : Open x.st) (
     | connErr s1 hc _ _ _ _ => exact (h.ctl hc).connError
     | trailers s1 hc _ _ _ _ hes => simp at hes
     | interim s1 hc _ _ _ _ _ => exact h.ctl hc
-    | bodiless s1 r hc _ _ _ _ _ hh =>
+    | bodiless s1 r hc _ _ _ _ _ hh _ =>
       simp only [Bool.false_eq_true, if_false]
       refine ⟨by simpa [hc.readClosed] using h.readClosed, ?_⟩
       intro hhd
@@ -195,7 +195,7 @@ theorem BufGrow.step (x : H2X) (e : H2XEv) : BufGrow x.st (x.step e).st := by
     | connErr s1 hc _ _ _ _ => exact (hctl s1 hc).trans (BufGrow.connError _)
     | trailers s1 hc _ _ _ _ _ => exact (hctl s1 hc).trans (BufGrow.endStream _)
     | interim s1 hc _ _ _ _ _ => exact hctl _ hc
-    | bodiless s1 r hc _ _ _ _ _ _ =>
+    | bodiless s1 r hc _ _ _ _ _ _ _ =>
       have h1 : BufGrow x.st ({ s1 with res := some r } : H2Stream) :=
         BufGrow.ofPipe (by simp [hc.pipe]) (by simp [hc.pipe])
       split
